@@ -116,7 +116,7 @@ impl<W, R, T> Runtime<W, R, T> {
         if let Some(size_limit) = self.limits.size_limit {
             if let Some(size) = f() {
                 let stat = self.stats.borrow();
-                if usize::from(stat.size) + size > size_limit {
+                if usize::from(stat.size).saturating_add(size) > size_limit {
                     return Err(RuntimeViolation::AllocationLimitReached);
                 }
             }
